@@ -65,7 +65,7 @@ pub fn run(ctx: &Ctx, rep: &mut Report) {
     rep.add("cases_planned", list.len() as u64);
     for k in ctx.cases(list.len() as u64) {
         rep.cur_case = k;
-        crate::ctx::WATCH_CASE.store(k, std::sync::atomic::Ordering::Relaxed);
+        crate::ctx::begin_case(k);
         let c = &list[k as usize];
         let mut rng = ctx.rng("case", k);
         let plain = data::gen(&mut rng, c.class, c.size);
